@@ -1,9 +1,15 @@
 #!/usr/bin/env python3
 """development helper: summarise the logs of tools/mutants.py runs (/tmp/mutants*.log, later runs override
-earlier ones) into seeded/RESULTS.md and the detected_by fields of seeded/*/meta.json"""
+earlier ones and the rows already in seeded/RESULTS.md) into seeded/RESULTS.md and the detected_by fields of seeded/*/meta.json"""
 import re, json, os, glob
 VERIF = os.path.dirname(os.path.dirname(os.path.abspath(__file__)))
 res = {}
+# rows of the existing table first (earlier sessions' logs are gone with /tmp); the logs found now override them
+_old = os.path.join(VERIF, 'seeded', 'RESULTS.md')
+if os.path.exists(_old):
+    for l in open(_old):
+        m = re.match(r'\| (\S+) \| (C\d\d) \| (.+?) \|$', l.strip())
+        if m: res[(m.group(1), m.group(2))] = m.group(3)
 logs = sorted(glob.glob('/tmp/mutants*.log'), key=os.path.getmtime)
 for f in logs:
     for l in open(f):
